@@ -8,6 +8,7 @@ import (
 	"text/template"
 
 	"github.com/monshunter/goat/pkg/config"
+	"github.com/monshunter/goat/pkg/verifhook"
 )
 
 type Values struct {
@@ -189,15 +190,18 @@ func (v *Values) Save(outputPath string) error {
 
 	// Ensure the directory exists
 	dir := filepath.Dir(outputPath)
+	verifhook.Boundary("mkdir", dir)
 	if err := os.MkdirAll(dir, 0755); err != nil {
 		return err
 	}
 
+	verifhook.Boundary("write", outputPath)
 	return os.WriteFile(outputPath, data, 0644)
 }
 
 // Remove removes the file
 func (v *Values) Remove(outputPath string) error {
+	verifhook.Boundary("remove", outputPath)
 	return os.Remove(outputPath)
 }
 
